@@ -317,3 +317,15 @@ Proof.
       rewrite l_get_assoc in C by (eapply proper_prefix_nonempty; eauto). destruct (assoc r L) as [[b|]|]; congruence. }
   repeat split; [apply nodup_keys_spec; exact H1 | apply X; assumption | apply X; assumption | apply X; assumption].
 Qed.
+
+(* the whole listing statement in one: on well-formed layers the listing consists exactly of the rendered
+   entries that some layer holds strictly under the directory and that the pattern selects *)
+Theorem list_union S d pat loc s dd tr l : wf_fs S -> fs_addr S d loc = FOk (s, (dd, tr)) -> fs_list S d pat loc = FOk l ->
+  forall x, In x l <-> exists L q rel, In L (layers S) /\ present L q /\ q = dd ++ rel /\ matchesP pat rel /\ x = render_path q.
+Proof.
+  intros W A H x. rewrite (list_spec S d pat loc s (dd, tr) l A H x). unfold wf_fs in W. rewrite Forall_forall in W. split.
+  - intros (L & q & HL & Hq & ->). apply (l_list_wf L dd tr pat q (W L HL)) in Hq. destruct Hq as (P & rel & E & M).
+    exists L, q, rel. auto.
+  - intros (L & q & rel & HL & P & E & M & ->). exists L, q. repeat split; auto.
+    apply (l_list_wf L dd tr pat q (W L HL)). split; [exact P|]. exists rel. auto.
+Qed.
